@@ -47,7 +47,7 @@ Print Assumptions history_reparse.
    not declared in the environment and whose style rules use prefixes of the environment only *)
 Theorem parse_refines : forall rx env ps rs e,
   Forall (proto_wf (mkP [] env 0)) ps -> protos_distinct ps ->
-  parse_sheet rx env ps = inl (rs, e) -> kinds rs = accept_kinds (map pkind ps) /\ e = None.
+  parse_sheet rx env (stmts ps) = inl (rs, e) -> kinds rs = accept_kinds (map pkind ps) /\ e = None.
 Proof. exact parse_refines_main. Qed.
 Print Assumptions parse_refines.
 
@@ -55,7 +55,7 @@ Print Assumptions parse_refines.
    and URIs is read back by parse_sheet (lenient mode) with the same rule kinds *)
 Theorem sheet_reparse : forall rs,
   valid_sheet rs = true -> dist rs = true -> udist rs = true ->
-  exists rs', parse_sheet false [] (map proto_of_rule rs) = inl (rs', None) /\ kinds rs' = kinds rs.
+  exists rs', parse_sheet false [] (stmts (map proto_of_rule rs)) = inl (rs', None) /\ kinds rs' = kinds rs.
 Proof. exact sheet_reparse_main. Qed.
 Print Assumptions sheet_reparse.
 
@@ -71,6 +71,24 @@ Theorem parse_step_is_ord_step : forall rx st p st1 sk run,
   p_expected st1 = fst (Skeleton.ord_step (fun _ _ => proto_wellformed st p) (p_expected st) sk run).
 Proof. exact OrderSkeleton.parse_step_is_ord_step. Qed.
 Print Assumptions parse_step_is_ord_step.
+
+(* CDO / CDC ('<!--', '-->') reset the parser's order state `expected` to 0.  The rule order does not depend on that
+   state: from ANY state (any `expected`), over any text with such tokens, the parser keeps the sheet valid -- because
+   every accepted statement goes through insert_rule, whose `place` re-checks the neighbours ... *)
+Theorem parse_valid_whatever_expected : forall rx its st st',
+  valid_sheet (p_rules st) = true -> parse_loop rx st its = inl st' -> valid_sheet (p_rules st') = true.
+Proof. exact parse_valid_whatever_expected_main. Qed.
+Print Assumptions parse_valid_whatever_expected.
+
+(* ... whereas the `expected` machine alone, appending what passes its threshold, would not: *)
+Example expected_alone_is_not_enough :
+  valid_kinds (naive_append [] 0 [KStmt STYLE_RULE; KSep false; KStmt IMPORT_RULE; KStmt STYLE_RULE]) = false.
+Proof. exact naive_append_breaks_order. Qed.
+
+Example cdo_text_is_refused :
+  match parse_sheet false [] cdo_text with inl (rs, None) => kinds rs = [STYLE_RULE; STYLE_RULE] | _ => False end
+  /\ parse_sheet true [] cdo_text = inr HierarchyRequestErr.
+Proof. exact (conj cdo_text_lenient cdo_text_raising). Qed.
 
 (* a rejected call (an exception, or None from insertRule) leaves the rule list unchanged -- every operation, every
    outcome, both modes.  (Uses: insertRule restores the list when _cleanNamespaces refuses; the parser keeps the
@@ -92,7 +110,7 @@ Proof. exact clean_raise_restores. Qed.
 (* non-vacuity *)
 Example parse_refines_nontrivial :
   (Forall (proto_wf (mkP [] refine_env 0)) refine_text /\ protos_distinct refine_text) /\
-  exists rs, parse_sheet false refine_env refine_text = inl (rs, None)
+  exists rs, parse_sheet false refine_env (stmts refine_text) = inl (rs, None)
              /\ kinds rs = [COMMENT; IMPORT_RULE; NAMESPACE_RULE; NAMESPACE_RULE; STYLE_RULE; MEDIA_RULE].
 Proof. exact (conj refine_text_ok refine_text_run). Qed.
 
